@@ -1,11 +1,6 @@
 #![allow(dead_code)]
-mod arc;
-mod engine;
-mod gen;
-mod glue;
-mod model;
-mod props;
-mod selftest;
+use opwv::props;
+use opwv::engine;
 
 use engine::*;
 use std::path::PathBuf;
@@ -22,6 +17,7 @@ macro_rules! dispatch {
             "C02" => $f(props::c02::C02, $($arg),*),
             "C03" => $f(props::c03::C03, $($arg),*),
             "C04" => $f(props::c04::C04, $($arg),*),
+            "C05" => $f(props::c05::C05, $($arg),*),
             "C07" => $f(props::c07::C07, $($arg),*),
             _ => { eprintln!("unknown property {}", $id); 2 }
         }
